@@ -58,9 +58,8 @@ ASSUMPTIONS = [
     "everything allocated before the save (including never-written slots) is compared in full",
     "module parameters are finite float32 values including -0.0, subnormals and float32 max (no NaN/inf)",
     "CPU backend; move_to_device is exercised with None and 'cpu' only",
-    "multi-task buffers with up to 12 tasks (20 in the thorough tier); a difference in the iteration order of "
-    "MultiTaskReplayBuffer.active_buffers between original and reloaded buffer is reported under its own key "
-    "and ends the case (the copies legitimately diverge afterwards)",
+    "multi-task buffers with up to 12 tasks (20 in the thorough tier); the iteration order of the active-task set "
+    "is internal state and not compared (only behaviour: sampled batches, generator state, stored data)",
 ]
 
 # Module instrumented if an atheris campaign (tools/fuzz.py) is run by hand.  Not enabled in the
@@ -235,6 +234,10 @@ class Lockstep:
         self.stopped = False  # a known finding made the two copies diverge
 
     def _check_order(self, when):
+        # Since fix 1afd2b3 the task is drawn from sorted(active_buffers): the set's iteration
+        # order is no longer behaviour-relevant state and is not compared (the lockstep
+        # continuation reports any behavioural divergence, e.g. with the fix reverted).
+        return
         if not self.multi or len(self.bufs) < 2 or self.stopped:
             return
         a, b = list(self.bufs[0].active_buffers), list(self.bufs[1].active_buffers)
